@@ -296,6 +296,11 @@ class ExprMixin:
                     self.fact(z3.Implies(y > 0, z3.And(q * y <= x, x < (q + 1) * y)))
                     self.fact(z3.Implies(y < 0, z3.And(q * y >= x, x > (q + 1) * y)))
                     return self.mk_num(q, a, b)
+        if isinstance(op, ast.Pow) and z3.is_int_value(z3.simplify(y)) and 0 <= z3.simplify(y).as_long() <= 4:
+            r = z3.IntVal(1) if x.sort() == I else z3.RealVal(1)
+            for _ in range(z3.simplify(y).as_long()):
+                r = r * x
+            return self.mk_num(r, a, b)
         raise Unsupported(f'binary op {type(op).__name__}')
 
     def e_BoolOp(self, e):
@@ -327,6 +332,11 @@ class ExprMixin:
             return self.eval(e.body)
         if z3.is_false(cs):
             return self.eval(e.orelse)
+        if not self.spec_mode and not self.qvars and any(
+                isinstance(n, (ast.List, ast.Dict, ast.ListComp, ast.DictComp, ast.Set, ast.SetComp))
+                for part in (e.body, e.orelse) for n in ast.walk(part)):
+            # a branch that builds a container has a heap effect: fork instead of merging
+            return self.eval(e.body) if self.branch(c) else self.eval(e.orelse)
         a = self.eval_pure(lambda: self.eval(e.body), guard=c)
         b = self.eval_pure(lambda: self.eval(e.orelse), guard=z3.Not(c))
         return self.merge([(c, a), (z3.Not(c), b)])
@@ -397,6 +407,10 @@ class ExprMixin:
                 return self.truth(self.call_function(fi, [self.class_ref(cont), item], {}))
         if isinstance(cont, VTuple):
             return z3.Or([self.values_equal(item, x) for x in cont.items] or [z3.BoolVal(False)])
+        if isinstance(cont, VRange) and isinstance(item, (VInt, VBool)):
+            i = self.arith_term(item)
+            lo, hi = (x if z3.is_expr(x) else self.arith_term(x) for x in (cont.lo, cont.hi))
+            return z3.And(lo <= i, i < hi)
         raise Unsupported(f'`in` on {type(cont).__name__}')
 
     # ------------------------------------------------------------------ attribute / subscript loads
@@ -423,7 +437,12 @@ class ExprMixin:
             i = self.arith_term(idx)
             n = self.llen(obj)
             if not self.spec_mode:
-                # negative indices are not used by the contracted code: require 0 <= i < len
+                isimp = z3.simplify(i)
+                if z3.is_int_value(isimp) and isimp.as_long() < 0:
+                    # constant negative index: counted from the end
+                    self.oblige_safe('IndexError', n + isimp >= 0, 'list-index')
+                    return self.list_get_typed(obj, n + isimp)
+                # symbolic negative indices are not used by the contracted code: require 0 <= i < len
                 self.oblige_safe('IndexError', z3.And(i >= 0, i < n), 'list-index')
             return self.list_get_typed(obj, i)
         if isinstance(obj, VRef) and isinstance(obj.typ, ty.TDict):
